@@ -203,6 +203,9 @@ class Emitter(object):
                 # inner events (as the documentation requires) and deliberately laid out differently
                 w("struct %s {" % e["name"])
                 w("  uint64_t marker = 0x5a5a5a5a5a5a5a5aull; int32_t occ; uint32_t chk; uint64_t tail = 0xa5a5a5a5a5a5a5a5ull;")
+            elif e["size_class"]:
+                self.emit_storage_event(i, e)
+                continue
             else:
                 base = e["base"] if e["base"] else "EvBase"
                 w("struct %s : %s {" % (e["name"], base))
@@ -225,6 +228,41 @@ class Emitter(object):
               % (e["name"], k))
         w("  return i;")
         w("}")
+
+    def emit_storage_event(self, i, e):
+        """event classes of the storage family (C20): size / alignment / copy and move traits"""
+        w = self.w
+        n = e["name"]
+        c = e["size_class"]
+        # 1: big trivially copyable   2: non-trivial copy + dtor (tracked)   3: potentially-throwing move (tracked, heap in backmp11)
+        # 4: self-referential (tracked)   5: 512 bytes, alignas(64) (tracked)   6: 1-byte payload beyond the header, odd size (tracked)
+        npad = {1: 192, 2: 24, 3: 40, 4: 16, 5: 448, 6: 1}[c]
+        align = "alignas(64) " if c == 5 else ""
+        w("struct %s%s : EvBase {" % (align, n))
+        w("  static constexpr int SIM_EV = %d;" % i)
+        w("  unsigned char pad[%d];" % npad)
+        if c == 4:
+            w("  const unsigned char* self;")
+        w("  void fill() { for (unsigned k = 0; k < sizeof pad; ++k) pad[k] = (unsigned char)((chk >> ((k & 3) * 8)) ^ (k * 7 + 1)); }")
+        w("  bool pad_ok() const { for (unsigned k = 0; k < sizeof pad; ++k) if (pad[k] != (unsigned char)((chk >> ((k & 3) * 8)) ^ (k * 7 + 1))) return false; return true; }")
+        if c == 1:
+            w("  %s() { occ = sim::OCC_UNKNOWN; chk = 0; fill(); }" % n)
+            w("  explicit %s(int32_t o) { occ = o; chk = sim::chk_of_occ(o); fill(); }" % n)
+            w("  bool sim_verify() const { return pad_ok(); }")
+        else:
+            selfinit = " self = pad;" if c == 4 else ""
+            w("  %s() { occ = sim::OCC_UNKNOWN; chk = 0; fill();%s sim::registry().ctor(this, occ); }" % (n, selfinit))
+            w("  explicit %s(int32_t o) { occ = o; chk = sim::chk_of_occ(o); fill();%s sim::registry().ctor(this, occ); }" % (n, selfinit))
+            w("  %s(const %s& o) : EvBase(o) { for (unsigned k = 0; k < sizeof pad; ++k) pad[k] = o.pad[k];%s sim::registry().ctor(this, occ); }" % (n, n, selfinit))
+            if c == 3:
+                w("  %s(%s&& o) noexcept(false) : EvBase(o) { for (unsigned k = 0; k < sizeof pad; ++k) pad[k] = o.pad[k]; sim::registry().ctor(this, occ); }" % (n, n))
+            elif c == 4:
+                w("  %s(%s&& o) noexcept : EvBase(o) { for (unsigned k = 0; k < sizeof pad; ++k) pad[k] = o.pad[k]; self = pad; sim::registry().ctor(this, occ); }" % (n, n))
+            w("  %s& operator=(const %s& o) { occ = o.occ; chk = o.chk; for (unsigned k = 0; k < sizeof pad; ++k) pad[k] = o.pad[k]; return *this; }" % (n, n))
+            w("  ~%s() { sim::registry().dtor(this); }" % n)
+            extra = " && self == pad" if c == 4 else ""
+            w("  bool sim_verify() const { return sim::registry().is_live(this) && pad_ok()%s; }" % extra)
+        w("};")
 
     def depth_of_event(self, k):
         d = 0
@@ -524,6 +562,8 @@ class Emitter(object):
             w("    else { boost::archive::binary_iarchive ia(is); ia >> m; }")
             w("    return true;")
             w("  }")
+        if self.mp:
+            w("  void clear_queue(int which) override { if (which == 0) m.sim_clear_pool(); }")
         if not self.mp:
             w("  void clear_queue(int which) override {")
             w("    if (which == 0) m.get_message_queue().clear();")
@@ -658,6 +698,7 @@ def emit_desc(n):
     for f in n.flags:
         w("  d.flag_names.push_back(%s);" % cstr(f))
     w("  d.serializable = %s;" % ("true" if n.spec.get("serialize") else "false"))
+    w("  d.tracked = %s;" % ("true" if any(e["size_class"] >= 2 for e in n.events) else "false"))
     w("  d.spec_json = %s;" % cstr(to_json(n.spec)))
     w("  return d;")
     w("}")
